@@ -103,3 +103,17 @@ Example ext_replaced_ok :
   map (fun e => match ev_cmd e with CStartTLS => true | _ => false end) (w_trace (o_world (run_tls fixes_all)))
     = [false; false; true; false; false; false].
 Proof. vm_compute. repeat split; reflexivity. Qed.
+
+(* multi-line replies are ONE reply in the queue (text = lines joined with LF): accepted at end-of-data, the
+   message is delivered and everything stays attributed; a multi-line rejection is classified from its first line *)
+Definition script_multiline : list decision :=
+  [DOk; DOk; DOk; DOk; DOk; DOk; DRep 250 (bs "2.0.0 first line" ++ [10] ++ bs "2.0.0 queued as X");
+   DOk; DOk; DRep 554 (bs "5.7.1 first line" ++ [10] ++ bs "5.7.2 second line")].
+
+Example multiline_replies :
+  let o := run fixes_all script_multiline [m0; m1] render_ok in
+  all_attributed (o_world o) = true /\ all_legal (o_world o) = true /\
+  map r_delivered (o_results o) = [true; false] /\
+  map (fun r => match r_err r with Some e => (se_reason e, se_code e, se_temp e, se_esc e) | None => (0, 0, false, []) end)
+      (o_results o) = [(0, 0, false, []); (reason_mail_from, 554, false, bs "5.7.1")].
+Proof. vm_compute. repeat split; reflexivity. Qed.
